@@ -52,6 +52,7 @@ fn gen_case(seed: u64, k: u64, corpus: &[SpecCase]) -> Case {
           "modules": pkg.modules.iter().map(|m| (m.path.clone(), pkggen::p_module(m))).collect::<Vec<_>>(),
           "exports": pkg.exports,
           "intent_must_drop": pkg.intent.must_drop,
+          "intent_must_drop_nested": pkg.intent.must_drop_paths,
         }),
         d,
         Some(pkg.intent.clone()),
@@ -104,10 +105,22 @@ fn gen_case(seed: u64, k: u64, corpus: &[SpecCase]) -> Case {
         }
       }
     }
+    let mut must_drop_paths = vec![];
+    if let Some(it) = &intent {
+      for (path, paths) in &it.must_drop_paths {
+        if m.specifier.ends_with(&format!("/{}", path)) {
+          for pth in paths {
+            must_drop_paths.push(Sx::atoms(pth.iter().map(|n| int.id(n))));
+          }
+          dropped += paths.len() as u64;
+          dist.push(("intent-must-drop-nested-paths".into(), paths.len() as u64));
+        }
+      }
+    }
     let n_names = declared_names(&esx);
     dist.push(("emitted-declared-names".into(), n_names));
     dist.push(("original-declared-names".into(), declared_names(&osx)));
-    inputs.push(Sx::L(vec![Sx::b(m.is_entrypoint), osx, esx, Sx::L(oe), Sx::L(ee), Sx::b(known), Sx::L(must_drop)]));
+    inputs.push(Sx::L(vec![Sx::b(m.is_entrypoint), osx, esx, Sx::L(oe), Sx::L(ee), Sx::b(known), Sx::L(must_drop), Sx::L(must_drop_paths)]));
     obs.push(Sx::L(vec![Sx::A(n_names), Sx::judge(true), Sx::judge(true), Sx::judge(true), Sx::judge(true)]));
     emitted_meta.push(serde_json::json!({"specifier": m.specifier, "entrypoint": m.is_entrypoint, "original": m.source, "emitted": text,
       "original_exports": m.orig_exports, "emitted_exports": em_exports.as_ref().and_then(|e| e.get(&m.specifier))}));
